@@ -45,6 +45,24 @@ def run(ctx, tier, res=None, prop='C01', tag=''):
                 res.violation(key + tag, text)
             else:
                 res.undec(text)
+    # prototype clause: a getter whose declared return type is signed and exactly as wide as the field hands the caller
+    # a negative number for values with the top bit set - widened, it is not the field's unsigned value any more
+    facts = ctx.facts()
+    for f in ctx.spec['formats']:
+        for fld in f['fields']:
+            g = fld.get('getter')
+            if not g or g not in ctx.mod.functions:
+                continue
+            res.count('getter return types inspected' + tag)
+            R = FC.ret_width(ctx.mod, ctx.mod.functions[g])
+            uns = facts.get('verif_retuns_' + g)
+            if uns == 0 and R is not None and fld['width'] >= R:
+                res.violation('%s:%s:get-ded:signed-return%s' % (f['format'], fld['name'], tag),
+                              '%s: the %d-bit field %s.%s is returned through a signed %d-bit type: values with the top bit set '
+                              'reach the caller as negative numbers (sign-extended when widened), not as the unsigned field value'
+                              % (FC.fnloc(ctx, g), fld['width'], f['format'], fld['name'], R))
+            else:
+                res.ok()
     generic.run_reader(ctx, tier, res, tag)
     res.rule = ('one obligation per (format, field, access path): the closed-form result of the reader over a fully '
                 'symbolic header must equal the field bits of spec/formats.json, zero-extended, with an empty write set; '
